@@ -142,6 +142,7 @@ type runOpts struct {
 	seed     int64
 	keep     bool
 	noNative bool
+	vector   string
 }
 
 func main() {
@@ -160,6 +161,7 @@ func main() {
 		fs.BoolVar(&o.verbose, "v", false, "verbose")
 		fs.BoolVar(&o.keep, "keep", false, "keep scratch dir")
 		fs.BoolVar(&o.noNative, "no-native", false, "skip native replay (debug only; never registers evidence)")
+		fs.StringVar(&o.vector, "vector", "", "debug: pin the nondeterministic inputs to this comma-separated vector (concrete run, prints Observe values)")
 		id := os.Args[2]
 		fs.Parse(os.Args[3:])
 		if t := os.Getenv("VERIF_TIER"); t == "quick" || t == "thorough" {
@@ -203,6 +205,10 @@ func runCheck(id string, o runOpts) int {
 		fmt.Fprintln(os.Stderr, "check.json:", err)
 		return 2
 	}
+	if os.Getenv("SYMGO_FORKS") != "" {
+		forkProfile = map[string]int{}
+		o.workers = 1
+	}
 	known, _ := loadKnown()
 	listed := map[string]bool{}
 	for k, e := range known {
@@ -245,6 +251,23 @@ func runCheck(id string, o runOpts) int {
 		}
 		r := runUnit(id, hdir, scratch, u, o, listed, deadline)
 		results = append(results, r)
+	}
+	if forkProfile != nil {
+		type kv struct {
+			k string
+			v int
+		}
+		var kvs []kv
+		for k, v := range forkProfile {
+			kvs = append(kvs, kv{k, v})
+		}
+		sort.Slice(kvs, func(i, j int) bool { return kvs[i].v > kvs[j].v })
+		for i, e := range kvs {
+			if i >= 25 {
+				break
+			}
+			fmt.Fprintf(os.Stderr, "FORKS %7d %s\n", e.v, e.k)
+		}
 	}
 	return report(id, &spec, o, results, known, time.Since(t0))
 }
@@ -415,6 +438,15 @@ func runUnit(id, hdir, scratch string, u UnitSpec, o runOpts, listed map[string]
 				maxSteps: maxSteps, maxPaths: maxPaths, maxDepth: 400, pipeTimeoutMS: 10000, tier: o.tier, crossSolver: "z3"}
 			in := NewInterp(prog, cfg)
 			defer in.solver.Close()
+			if o.vector != "" {
+				in.pinned = []uint64{}
+				for _, f := range strings.Split(o.vector, ",") {
+					if f = strings.TrimSpace(f); f != "" && f != "-" {
+						v, _ := strconv.ParseUint(f, 10, 64)
+						in.pinned = append(in.pinned, v)
+					}
+				}
+			}
 			for j := range jobCh {
 				r := in.runCase(j.name, j.entry, j.args, deadline)
 				if o.verbose {
